@@ -256,9 +256,9 @@ func (r *c20Run) checkStore(init uint64, ops []string) {
 
 func checkC20(tier string, seed int64) *CustomResult {
 	run := &c20Run{nontrivial: map[string]bool{}, fpSeen: map[string]int{}}
-	maxCap, depth, sdepth := uint64(3), 7, 6
+	maxCap, depth, sdepth := uint64(4), 8, 7
 	if tier == "thorough" {
-		maxCap, depth, sdepth = 4, 9, 8
+		maxCap, depth, sdepth = 4, 10, 9
 	}
 	run.exploreRB(maxCap, depth)
 	run.exploreStore(3, sdepth)
